@@ -57,6 +57,15 @@ theorem next_batch_height (s : State) (c : CtxId) (x1 : Ctx) (hrun : x1.state = 
   show Map.get (Map.set _ c _) c = _
   exact Map.get_set_same _ _ _
 
+/-- Cadence: a batch that started at height `H` expires at `H + timeout` (`issueBatch` queues the expiry there,
+    `C06.batch_issued`); when that expiry is handled for a context that is still running with more batches to
+    come, the next batch is queued for `H + frequency` — consecutive batches start exactly `frequency` blocks apart. -/
+theorem next_batch_is_frequency_after_start (s : State) (c : CtxId) (x1 : Ctx) (H : Int) (hH : s.height = H + x1.timeout)
+    (hrun : x1.state = .running) (hmore : x1.rep = true ∧ (x1.total < 0 ∨ (x1.batch : Int) < x1.total)) :
+    Map.get (expireTail s c x1).1.newH c = some (H + x1.freq) := by
+  rw [next_batch_height s c x1 hrun hmore, hH]
+  congr 1; omega
+
 /-- A running repeated context whose total is reached is finished when its batch expires: no further batch is queued. -/
 theorem total_reached_finishes (s : State) (c : CtxId) (x1 : Ctx) (hrun : x1.state = .running)
     (hdone : ¬ (x1.rep = true ∧ (x1.total < 0 ∨ (x1.batch : Int) < x1.total))) :
